@@ -10,7 +10,6 @@ import difflib
 import itertools
 import logging
 import re
-import sys
 from fractions import Fraction
 
 from rtc.common import Recorder, rng, parallel
@@ -261,13 +260,10 @@ class Ref:
     self._isd = {}
     self.has_ruby = doc.get_body() is not None and any(isinstance(e, m.Ruby) for e in doc.get_body().dfs_iterator())
     self.has_tie = any(C.is_tie(c) for c in self.cts)
-    self.outside = False
 
   def intervals(self, ruby):
     if ruby not in self._ivs:
       self._ivs[ruby] = C.reference_intervals(self.doc, ruby)
-      if self._ivs[ruby] is None:
-        self.outside = True
     return self._ivs[ruby]
 
   def variants(self):
@@ -277,14 +273,6 @@ class Ref:
       for rounding in roundings:
         for bl in ("keep", "drop"):
           yield ruby, rounding, bl
-
-  def has_short_interval(self):
-    """some interval between change times during which text is visible vanishes when rounded to the millisecond"""
-    ivs = self.intervals("base") or []
-    for iv in ivs:
-      if iv["end"] is not None and C.to_ms(iv["end"]) <= C.to_ms(iv["begin"]) and not C.is_blank(C.text_of(C.interval_lines(iv))):
-        return True
-    return False
 
   def has_short_gap(self):
     return any(C.to_ms(b) <= C.to_ms(a) for a, b in zip(self.cts, self.cts[1:]))
